@@ -9,8 +9,8 @@ PROP = {
     "cases_per_file": 20,
     "harness_timeout": 1500,
     "level_text": "Coq theorems over the interleaving model of the sequencer (caller, flusher, actualizer/batcher, storage failures, exact LRU eviction, crash at any step): every number issued exceeds everything recorded for its key in the log and in sequence storage, the persisted (numbers, offset) pair covers every log event below the offset at every storage write, offsets are consecutive; the real isequencer is driven step by step through verifhook points and a scripted storage and every observed action sequence is replayed on the model and judged by the oracle inside Coq",
-    "level_note": "trusted: Coq kernel/vm_compute, translator (batcher shape), harness (role scheduler through verifhook callback, scripted ISeqStorage); modelled not verified: Go scheduler below the hook granularity, hashicorp/golang-lru (exact LRU model), retry delays; the client protocol (the event carrying the issued numbers is appended at the offset returned by Start before Flush) is an assumption of the theorems and is what the harness does",
-    "rule": "scenario = random walk (25-95 moves) over the applicable moves {Start ws, Next seq, append+Flush, Actualize (with or without the event appended), release flusher (storage write outcome ok / error before / error between numbers and offset), release actualizer (read-offset and scan outcomes), crash+restart} with LRU capacity in {1,2,3,100}, unflushed limit in {1,2,3,500}, at most 0-2 injected storage failures; corpus schedules first; non-trivial = numbers were issued and a flush completed or a crash happened; distinct = configuration + exact move list",
+    "level_note": "trusted: Coq kernel/vm_compute, translator (batcher shape), harness (role scheduler through verifhook callback; numbers and offset persist through the real appparts/internal/seqstorage + vvm/storage adapter over mem IAppStorage with failures injected at its Get/PutBatch/Put; the log scan is scripted); modelled not verified: Go scheduler below the hook granularity, hashicorp/golang-lru (exact LRU model), retry delays; the client protocol (the event carrying the issued numbers is appended at the offset returned by Start before Flush) is an assumption of the theorems and is what the harness does",
+    "rule": "scenario = random walk (25-95 moves) over the applicable moves {Start ws, Next seq, append+Flush, Actualize (with or without the event appended), Next with the first storage read of the number failing (retried by the sequencer), release flusher (storage write outcome ok / error at the numbers PutBatch / error at the offset Put of the real seqstorage stack), release actualizer (read-offset and scan outcomes), crash+restart} with LRU capacity in {1,2,3,100}, unflushed limit in {1,2,3,500}, at most 0-2 injected storage failures; corpus schedules first; non-trivial = numbers were issued and a flush completed or a crash happened; distinct = configuration + exact move list",
     "trusted_base": ["modelled not verified: golang-lru, retrier timing, Go scheduler below hook granularity"],
     "assumptions": ["single caller thread (Start/Next/Flush/Actualize are not concurrent with each other)", "client protocol: the event with exactly the issued numbers is appended at the offset returned by Start before Flush"],
 }
